@@ -1,6 +1,6 @@
 SPECIFICATION Spec
 CONSTANTS
-  Parts = {".", "..", "a", "b", "", "LONG", "uni", "..a", "...", "bs", "out2"}
+  Parts = {".", "..", "a", "b", "", "LONG", "uni", "..a", "...", "bs", "out2", "out2/f"}
   MaxParts = 2
   Forms = {"linear", "listed", "glob"}
   Partners <- QuickPartners
